@@ -3,11 +3,10 @@
    oracle's vote crosses the threshold.
 
    Gen_* are regenerated from x/crosschain/types/msgs.go (+ tx.pb.go, keeper handlers) on every run.
-   [verdict sp] is, by computation on the generated format,
-       injective sp  (equal ClaimHash pre-images of ValidateBasic-valid claims => equal relevant fields)
-     or refuted sp   (a concrete pair of valid claims differing in a relevant field with equal pre-image). *)
+   [injective sp]: equal ClaimHash pre-images of two ValidateBasic-valid claims => equal relevant fields;
+   [refuted sp]: a concrete pair of valid claims (same nonce) differing in a relevant field with equal pre-image. *)
 From Coq Require Import ZArith List String.
-From FxV Require Import model.M_ClaimHash model.M_AttestExec gen.Gen_ClaimHash
+From FxV Require Import model.M_ClaimHash model.M_ClaimHashPreFix model.M_AttestExec gen.Gen_ClaimHash
      proofs.P_ClaimHash proofs.P_ClaimHashGen proofs.P_AttestExec.
 Import ListNotations.
 Open Scope Z_scope.
@@ -20,29 +19,54 @@ Theorem C03_check_fmt_sound : forall sp, check_fmt sp = true ->
 Proof. exact check_fmt_sound. Qed.
 Print Assumptions C03_check_fmt_sound.
 
-Theorem C03_SendToFx : verdict Gen_SendToFx.
-Proof. exact v_SendToFx. Qed.
-Print Assumptions C03_SendToFx.
+(* --- the property for the six claim types of the current source: for ALL field values, two ValidateBasic-valid
+       claims with equal ClaimHash pre-image agree on every execution-relevant field --- *)
+Theorem C03_SendToFx_injective : forall c1 c2, wf Gen_SendToFx c1 -> wf Gen_SendToFx c2 ->
+  preimage Gen_SendToFx c1 = preimage Gen_SendToFx c2 -> relevant Gen_SendToFx c1 = relevant Gen_SendToFx c2.
+Proof. exact inj_SendToFx. Qed.
+Print Assumptions C03_SendToFx_injective.
 
-Theorem C03_BridgeCall : verdict Gen_BridgeCall.
-Proof. exact v_BridgeCall. Qed.
-Print Assumptions C03_BridgeCall.
+Theorem C03_BridgeCall_injective : forall c1 c2, wf Gen_BridgeCall c1 -> wf Gen_BridgeCall c2 ->
+  preimage Gen_BridgeCall c1 = preimage Gen_BridgeCall c2 -> relevant Gen_BridgeCall c1 = relevant Gen_BridgeCall c2.
+Proof. exact inj_BridgeCall. Qed.
+Print Assumptions C03_BridgeCall_injective.
 
-Theorem C03_BridgeCallResult : verdict Gen_BridgeCallResult.
-Proof. exact v_BridgeCallResult. Qed.
-Print Assumptions C03_BridgeCallResult.
+Theorem C03_BridgeCallResult_injective : forall c1 c2, wf Gen_BridgeCallResult c1 -> wf Gen_BridgeCallResult c2 ->
+  preimage Gen_BridgeCallResult c1 = preimage Gen_BridgeCallResult c2 ->
+  relevant Gen_BridgeCallResult c1 = relevant Gen_BridgeCallResult c2.
+Proof. exact inj_BridgeCallResult. Qed.
+Print Assumptions C03_BridgeCallResult_injective.
 
-Theorem C03_SendToExternal : verdict Gen_SendToExternal.
-Proof. exact v_SendToExternal. Qed.
-Print Assumptions C03_SendToExternal.
+Theorem C03_SendToExternal_injective : forall c1 c2, wf Gen_SendToExternal c1 -> wf Gen_SendToExternal c2 ->
+  preimage Gen_SendToExternal c1 = preimage Gen_SendToExternal c2 ->
+  relevant Gen_SendToExternal c1 = relevant Gen_SendToExternal c2.
+Proof. exact inj_SendToExternal. Qed.
+Print Assumptions C03_SendToExternal_injective.
 
-Theorem C03_BridgeToken : verdict Gen_BridgeToken.
-Proof. exact v_BridgeToken. Qed.
-Print Assumptions C03_BridgeToken.
+Theorem C03_BridgeToken_injective : forall c1 c2, wf Gen_BridgeToken c1 -> wf Gen_BridgeToken c2 ->
+  preimage Gen_BridgeToken c1 = preimage Gen_BridgeToken c2 -> relevant Gen_BridgeToken c1 = relevant Gen_BridgeToken c2.
+Proof. exact inj_BridgeToken. Qed.
+Print Assumptions C03_BridgeToken_injective.
 
-Theorem C03_OracleSetUpdated : verdict Gen_OracleSetUpdated.
-Proof. exact v_OracleSetUpdated. Qed.
-Print Assumptions C03_OracleSetUpdated.
+Theorem C03_OracleSetUpdated_injective : forall c1 c2, wf Gen_OracleSetUpdated c1 -> wf Gen_OracleSetUpdated c2 ->
+  preimage Gen_OracleSetUpdated c1 = preimage Gen_OracleSetUpdated c2 ->
+  relevant Gen_OracleSetUpdated c1 = relevant Gen_OracleSetUpdated c2.
+Proof. exact inj_OracleSetUpdated. Qed.
+Print Assumptions C03_OracleSetUpdated_injective.
+
+(* --- history: the explicit PRE-FIX format constants of findings C03-1/2/3 (model/M_ClaimHashPreFix.v; not the
+       current code) each admitted two valid claims with the same nonce, different relevant fields, equal pre-image --- *)
+Theorem C03_prefix_BridgeCall_refuted : refuted PreFix_BridgeCall.
+Proof. exact prefix_BridgeCall_refuted. Qed.
+Print Assumptions C03_prefix_BridgeCall_refuted.
+
+Theorem C03_prefix_BridgeCallResult_refuted : refuted PreFix_BridgeCallResult.
+Proof. exact prefix_BridgeCallResult_refuted. Qed.
+Print Assumptions C03_prefix_BridgeCallResult_refuted.
+
+Theorem C03_prefix_BridgeToken_refuted : refuted PreFix_BridgeToken.
+Proof. exact prefix_BridgeToken_refuted. Qed.
+Print Assumptions C03_prefix_BridgeToken_refuted.
 
 Theorem C03_verdicts_exclusive : forall sp, refuted sp -> ~ injective sp.
 Proof. exact refuted_not_injective. Qed.
